@@ -268,4 +268,6 @@ def run(repo, tier):
     res.floor('TABLE', 7)
     res.floor('L4', 15)
     res.floor('T-AXIS', 50)
+    from .common import run_clone_pairs
+    run_clone_pairs(repo, res, {m for m in repo.modules if m.startswith('photutils.aperture') and '.tests' not in m})
     return res
